@@ -227,6 +227,13 @@ def rule_WB(ctx):
             if isinstance(it, ast.Call) and isinstance(it.func, ast.Name) and it.func.id == 'enumerate' and it.args and isinstance(target, ast.Tuple) \
                     and len(target.elts) == 2:
                 it, target = it.args[0], target.elts[1]
+            if isinstance(it, ast.Name):
+                # the range held in a local bound once: `starts = range(a, b, step); for p in starts: ...`
+                defs = [x.value for x in own_walk(f.node) if isinstance(x, ast.Assign) and len(x.targets) == 1 and isinstance(x.targets[0], ast.Name)
+                        and x.targets[0].id == it.id]
+                stores = sum(1 for y in own_walk(f.node) if isinstance(y, ast.Name) and y.id == it.id and isinstance(y.ctx, ast.Store))
+                if len(defs) == 1 and stores == 1 and it.id not in f.params():
+                    it = defs[0]
             if not (isinstance(it, ast.Call) and isinstance(it.func, ast.Name) and it.func.id == 'range' and len(it.args) >= 2):
                 raise AnalysisError(f'{f.key}: write loop is not a range() loop (needs a human)')
             stop = it.args[1]
@@ -571,6 +578,10 @@ def _merge_chain(t):
     """`a <= b and b <= c` written as the chain `a <= b <= c` (the form the reason table uses); anything else unchanged."""
     if isinstance(t, ast.BoolOp) and isinstance(t.op, ast.And) and len(t.values) == 2 and all(isinstance(v, ast.Compare) and len(v.ops) == 1 for v in t.values):
         a, b = t.values
+        flip = {ast.Gt: ast.Lt, ast.GtE: ast.LtE, ast.Lt: ast.Gt, ast.LtE: ast.GtE}
+        if isinstance(a.comparators[0], ast.Constant) and ast.dump(a.left) == ast.dump(b.left) and type(a.ops[0]) in flip:
+            # `x >= 0 and x <= n` (constants to the right) is `0 <= x and x <= n`
+            a = ast.Compare(left=a.comparators[0], ops=[flip[type(a.ops[0])]()], comparators=[a.left])
         if ast.dump(a.comparators[0]) == ast.dump(b.left) and isinstance(b.left, (ast.Name, ast.Constant)):
             return ast.Compare(left=a.left, ops=[a.ops[0], b.ops[0]], comparators=[a.comparators[0], b.comparators[0]])
     return t
@@ -927,6 +938,7 @@ N5_REASONS = {
     ('dtypes:Dtype.__str__', 'dtype_register.names[self._name]'): 'the Dtype was created from this registry entry',
     ('dtypes:Dtype.__repr__', 'dtype_register.names[self._name]'): 'the Dtype was created from this registry entry',
     ('dtypes:Dtype._create', 'dtype_register.names[x._name]'): 'x._name is definition.name of a registered definition',
+    ('dtypes:Dtype._create', 'dtype_register.names[definition.name]'): 'the same lookup written with the definition itself: _create is called by DtypeDefinition.get_dtype only (rule CHOKE), with a registered definition',
     ('dtypes:Register.add_dtype_alias', 'cls.names[name]'): 'H3: every alias source is registered before use (both byte-order branches)',
     ('dtypes:Register.add_dtype_alias', 'cls.names[alias]'): 'assigned on the previous line',
     ('fp8:Binary8Format.decompress_luts', 'binary8_luts_compressed[self.exp_bits, self.bias]'): 'H5c: every format object has its table key',
@@ -1145,9 +1157,13 @@ def rule_D5(ctx):
                 fmt = x.args[0] if x.args else None
                 is_float = not isinstance(fmt, ast.Constant) or any(ch in str(fmt.value) for ch in 'efd')
                 val = x.args[1] if len(x.args) > 1 else None
-                only_inf = val is not None and not any(isinstance(y, ast.Name) and y.id not in ('float', 'f') for y in ast.walk(val)) and \
-                    all(isinstance(y.args[0], ast.Constant) and str(y.args[0].value).lstrip('+-') in ('inf', 'nan') for y in ast.walk(val)
-                        if isinstance(y, ast.Call) and ast.unparse(y.func) == 'float') and any(isinstance(y, ast.Call) for y in ast.walk(val))
+                def _inf(v):
+                    # float('inf') / float('-inf') / float('nan'), or a choice between them (whatever the test looks at)
+                    if isinstance(v, ast.IfExp):
+                        return _inf(v.body) and _inf(v.orelse)
+                    return isinstance(v, ast.Call) and ast.unparse(v.func) == 'float' and len(v.args) == 1 and isinstance(v.args[0], ast.Constant) \
+                        and str(v.args[0].value).lstrip('+-') in ('inf', 'nan')
+                only_inf = val is not None and _inf(val)
                 if not is_float or only_inf or handled(x, ['OverflowError', 'ArithmeticError']):
                     r.ok(f'{f.key}:{norm(x)}')
                 else:
